@@ -305,12 +305,34 @@ def mgd_cases(ck, have_driver: bool, thorough: bool):
                          'circuit': L.circ_desc(c)}, found_input=True)
                     continue
                 if d > 1e-6 or dm > 1e-6:
+                    from harness.common import ddmin
+
+                    def fails(ops, _W=W, _tw=twice):
+                        try:
+                            cc = Circuit(_W)
+                            for g_, l_, p_ in ops:
+                                cc.append_gate(g_, l_, p_)
+                            o_, _ = run_pass(P.MGDPass(_tw), cc)
+                            return phase_dist(o_.get_unitary().numpy,
+                                              cc.get_unitary().numpy) > 1e-6
+                        except Exception:
+                            return False
+                    small = ddmin([(o.gate, tuple(o.location),
+                                    list(o.params)) for o in c], fails)
+                    cs = Circuit(W)
+                    for g_, l_, p_ in small:
+                        cs.append_gate(g_, l_, p_)
+                    o_, _ = run_pass(P.MGDPass(twice), cs)
+                    ds = phase_dist(o_.get_unitary().numpy,
+                                    cs.get_unitary().numpy)
                     ck.violation(
                         'unitary:MGDPass', f'MGDPass({twice}) on '
-                        f'{type(g).__name__}({n}, target {t}) at {loc}: '
-                        f'distance {d:.3g} from the input unitary',
+                        + ', '.join(f'{L.gate_tag(g_)}@{list(l_)}'
+                                    for g_, l_, _ in small)
+                        + f': distance {ds:.3g} from the input unitary',
                         {'pass': 'MGDPass', 'args': repr(args),
-                         'circuit': L.circ_desc(c)}, found_input=True)
+                         'circuit': L.circ_desc(cs),
+                         'found_in': L.circ_desc(c)}, found_input=True)
                 wout = mpx_width(out)
                 if not (wout <= max(0, win - (2 if twice else 1))
                         or wout <= 1):
